@@ -3,8 +3,8 @@
 import sys, os, json, shutil, glob
 prop, k, note = sys.argv[1], sys.argv[2], sys.argv[3]
 keys = sys.argv[4:]
-src = f'/tmp/wt/{prop}.out'
-dst = f'/verif/seeded/{prop}-{k}'
+src = os.environ.get('SEEDROOT','/tmp/wt') + f'/{prop}.out'
+dst = f'/verif/seeded/{prop}-{int(k)+int(os.environ.get("OFFSET","0"))}'
 os.makedirs(dst, exist_ok=True)
 shutil.copy(f'{src}/patch{k}.diff', f'{dst}/patch.diff')
 for f in glob.glob(f'{src}/demo{k}*'):
